@@ -166,7 +166,7 @@ class ZoneAnalysis:
         for s in zf.sites:
             if s.status == 'pre':
                 pre.append(s)
-        summ = {'retlen': retlen, 'pre': pre, 'post': self._post_ok(zf), 'retlen_lb': self._retlen_lb(zf)}
+        summ = {'retlen': retlen, 'pre': pre, 'post': self._post_ok(zf), 'retlen_lb': self._retlen_lb(zf), 'retelem': self._retelem(zf)}
         self._inprog.discard(path)
         self._summ[path] = summ
         return summ
@@ -190,6 +190,51 @@ class ZoneAnalysis:
                      and not (t1[0] is None and t2[0] is None))
             common = fs if common is None else (common & fs)
         return sorted(common or [], key=str)
+
+    def _retelem(self, zf):
+        """[(k, T)]: every element e of the returned Vec<usize> satisfies e + k <= T (T over parameter symbols).  The vector must be a local
+        created empty whose only mutation is `push`; each pushed value must be bounded at its push site."""
+        body, fd = zf.body, zf.fd
+        if not body.local_ty(0).startswith('std::vec::Vec<usize'):
+            return []
+        ds = [d for d in fd.defs.get(0, []) if not d[2].get('dst', {}).get('p')]
+        if len(ds) != 1 or ds[0][0] != 'assign' or ds[0][2]['rv']['k'] != 'use' or ds[0][2]['rv']['op']['k'] not in ('copy', 'move') \
+                or ds[0][2]['rv']['op']['pl'].get('p'):
+            return []
+        root = fd.resolve_place(ds[0][2]['rv']['op']['pl'])[0]
+        cr = fd.defs.get(root, [])
+        if len(cr) != 1 or cr[0][0] != 'call' or not (cr[0][2].get('callee') or '').endswith(('Vec::<T>::new', 'Vec::<T>::with_capacity')):
+            return []
+        pushes = []
+        for bi, t in body.calls():
+            cal = t.get('callee') or ''
+            for ai, a in enumerate(t['args']):
+                if a['k'] in ('copy', 'move') and body.local_ty(a['pl']['l']).startswith('&mut ') and fd.resolve_place(a['pl'])[0] == root:
+                    if cal == 'std::vec::Vec::<T, A>::push' and ai == 0:
+                        pushes.append((bi, t))
+                    else:
+                        return []
+        if not pushes:
+            return []
+        cands = set()
+        for k in range(1, body.arg_count + 1):
+            if body.local_ty(k) in ('usize', 'u64', 'u32'):
+                cands.add(('p%d' % k, 0))
+        for (bi, t) in pushes:
+            for (a, b) in zf.facts_at(bi):
+                if self._param_term_ok(zf, b) and b[0] is not None:
+                    cands.add(b)
+        out = []
+        for T in sorted(cands, key=str):
+            ok = True
+            for (bi, t) in pushes:
+                tv = zf.term_op(t['args'][1])
+                if tv is None or not zf.prove_le(tadd(tv, 1), T, bi):
+                    ok = False
+                    break
+            if ok:
+                out.append((1, T))
+        return out
 
     def _retlen_lb(self, zf):
         """lower bound of the length of a returned Vec (field) that is only ever grown inside the function."""
@@ -677,15 +722,19 @@ class ZoneAnalysis:
                 eqs.setdefault(t1[0], []).append((t1, t2))
         out = []
         for (a, c) in needs:
-            a2, c2 = self._to_param(zf, a, eqs), self._to_param(zf, c, eqs)
+            a2, c2 = self._to_param(zf, a, eqs, left=True), self._to_param(zf, c, eqs)
             if a2 is None or c2 is None:
                 return None
             out.append((a2, c2))
         return out
 
-    def _to_param(self, zf, t, eqs):
+    def _to_param(self, zf, t, eqs, left=False):
         if self._param_term_ok(zf, t):
             return t
+        if left and t is not None and t[0] in zf.elem_of:
+            cand = (zf.elem_of[t[0]], t[1])       # e <= every-element bound: requiring the bound for all elements is stronger
+            if self._param_term_ok(zf, cand):
+                return cand
         for (t1, t2) in eqs.get(t[0], []):
             # t1 == t2, t1.sym == t.sym  =>  t = t2 + (t.c - t1.c)
             cand = tadd(t2, t[1] - t1[1])
